@@ -110,6 +110,12 @@ def obligations(bits):
         O.append((f, 'far below the underflow threshold', F([], (-MAX, lo_)), ('small_nonneg',), '%s(x) for x <= %g is +0 or a tiny positive value (never negative, infinite or NaN)' % (f, lo_)))
         O.append((f, 'far above the overflow threshold', F([], None, (hi_, MAX)), ('huge_pos',), '%s(x) for x >= %g is +inf or a huge positive value' % (f, hi_)))
     NEGINT = (F([], (-MAX, -1.0)), 'int')
+    FINNZ = F([], (-MAX, -TINY * 4), (TINY * 4, MAX))
+    FIN = F(['PZ', 'NZ'], (-MAX, -TINY), (TINY, MAX))
+    O.append(('pow', 'finite non-zero base, exponent +0', (FINNZ, {1: PZ}), ('point', 1.0), 'pow(x, +0) = 1 exactly for finite non-zero x'))
+    O.append(('pow', 'finite non-zero base, exponent -0', (FINNZ, {1: NZ}), ('point', 1.0), 'pow(x, -0) = 1 exactly for finite non-zero x'))
+    O.append(('pow', 'negative base, non-integer exponent', (F([], (-MAX, -TINY)), {1: (F([], (-MAX, -TINY), (TINY, MAX)), 'nonint')}), only('N'), 'pow of a negative base with a finite non-integer exponent is NaN'))
+    O.append(('pow', 'NaN base, non-zero exponent', (NAN, {1: F([], (-MAX, -TINY), (TINY, MAX))}), only('N'), 'pow(NaN, y) is NaN for y != 0'))
     O.append(('tgamma', 'negative integer', NEGINT, only('N'), 'tgamma at a negative integer is NaN'))
     O.append(('lgamma', 'negative integer', NEGINT, only('PI'), 'lgamma at a negative integer is +inf'))
     return O
@@ -156,11 +162,20 @@ def analyse(cfgname):
             if fn is None:
                 out['broken_list'].append('wrapper m_%s_%s missing' % (f, tn))
                 continue
-            arg_int = isinstance(inp, tuple)
-            if arg_int:
+            arg_int = isinstance(inp, tuple) and inp[1] == 'int'
+            others, flags = {}, {}
+            if isinstance(inp, tuple) and isinstance(inp[1], dict):
+                for i_, v_ in inp[1].items():
+                    if isinstance(v_, tuple):
+                        others[i_], flags[i_] = v_[0], v_[1]
+                    else:
+                        others[i_] = v_
+                inp = inp[0]
+            elif isinstance(inp, tuple):
                 inp = inp[0]
             try:
-                a = FC.FPClass(mod, fn, [inp] + [None] * (len(fn['args']) - 1), summaries(mod, inp), arg_int=arg_int)
+                argv = [inp] + [others.get(i_) for i_ in range(1, len(fn['args']))]
+                a = FC.FPClass(mod, fn, argv, summaries(mod, inp), arg_int=arg_int, arg_flags=flags)
                 r = a.run()
                 ok, got = satisfied(exp, r)
             except (ValueError, KeyError, IndexError, ZeroDivisionError, OverflowError) as e:
@@ -337,7 +352,7 @@ def run(a):
            'evaluations': nob, 'distinct_nontrivial': nob - nbad, 'checker_cmd': 'python3 /verif/check.py C12 --tier %s' % a.tier,
            'trusted_base': ['clang 14 -O2 translation of the headers', 'engine/fpclass.py transfer functions (IEEE-754 at class level, outward-widened intervals)', 'engine/parity.py sign algebra'],
            'rule': 'result class subset of the class the statement lists / result parity equals the function parity', 'headers_sha256': build.headers_hash()}
-    return r.finish(cov, ['pow (negative base, pow(x,0)=1) is NOT decided; undecided obligations are listed, not claimed',
+    return r.finish(cov, ['pow(x,0)=1 is listed undecided; undecided obligations are listed, not claimed',
                           'the lane abstraction (a vector value stands for the elements derived from the tracked argument lane) relies on lane-locality of the data flow, which C13 decides on the same wrappers and configurations',
                           'parity: NaN results are exempt from the sign rule (the NaN constant is returned for x and for -x)',
                           'the sum of two odd terms is treated as odd: exact in round-to-nearest unless the two terms cancel exactly (both results are then +0)',
